@@ -432,8 +432,15 @@ func (st *StateDB) GetWithdrawQueue() *WithdrawQueue {
 func (st *StateDB) RemoveWithdrawRecords(index []int) bool {
 	queue, _ := st.getWithdrawQueue()
 	removedRecords := queue.RemoveRecords(index)
-	for _, record := range removedRecords {
-		st.validatorJournal.append(&validatorDelWithdrawChange{address: &record.Validator, prev: record})
+	for i, record := range removedRecords {
+		// entries are reverted last-to-first: when this one is put back, the records removed before it are still absent
+		pos := index[i]
+		for _, earlier := range index[:i] {
+			if earlier < index[i] {
+				pos--
+			}
+		}
+		st.validatorJournal.append(&validatorDelWithdrawChange{address: &record.Validator, prev: record, pos: pos})
 	}
 	return true
 }
